@@ -5,7 +5,17 @@ use std::io::{BufRead, Write};
 mod ops_blake;
 mod ops_chacha;
 mod ops_conc;
+#[cfg(not(feature = "nostd_build"))]
 mod ops_groestl;
+/// groestl-aesni does not compile without `std` and is not part of the no-std manifest variant
+#[cfg(feature = "nostd_build")]
+mod ops_groestl {
+    #[derive(Default)]
+    pub struct St;
+    pub fn step(_: &mut St, _: &[&str]) -> String {
+        "unsupported".into()
+    }
+}
 mod ops_jh;
 mod ops_mem;
 mod ops_simd;
@@ -24,8 +34,31 @@ pub struct Ctx {
     pub skein: ops_skein::St,
 }
 
+/// the `Machine` the no-std (compile-time) arms of the dispatch macros are built for
+#[cfg(feature = "nostd_build")]
+fn compile_time_backend() -> &'static str {
+    match (
+        cfg!(target_feature = "avx2"),
+        cfg!(target_feature = "avx"),
+        cfg!(target_feature = "sse4.1"),
+        cfg!(target_feature = "ssse3"),
+    ) {
+        (true, true, true, true) => "avx2",
+        (false, true, true, true) => "avx",
+        (false, false, true, true) => "sse41",
+        (false, false, false, true) => "ssse3",
+        (false, false, false, false) => "sse2",
+        _ => "inconsistent-target-features",
+    }
+}
+
 fn set_backend(name: &str) -> bool {
-    #[cfg(not(feature = "no_simd"))]
+    // no-std build: the backend is fixed at compile time (the H1 hook exists only in the std arms)
+    #[cfg(feature = "nostd_build")]
+    {
+        name == compile_time_backend()
+    }
+    #[cfg(all(not(feature = "no_simd"), not(feature = "nostd_build")))]
     {
         use std::sync::atomic::Ordering;
         let v = match name {
@@ -40,7 +73,7 @@ fn set_backend(name: &str) -> bool {
         ppv_lite86::x86_64::VERIF_FORCE_BACKEND.store(v, Ordering::SeqCst);
         true
     }
-    #[cfg(feature = "no_simd")]
+    #[cfg(all(feature = "no_simd", not(feature = "nostd_build")))]
     {
         name == "generic" || name == "ref"
     }
@@ -68,7 +101,8 @@ fn step(ctx: &mut Ctx, toks: &[&str]) -> String {
         ["chacha", ..] | ["guts", ..] => ops_chacha::step(&mut ctx.chacha, toks),
         ["blake", ..] => ops_blake::step(&mut ctx.blake, &ctx.backend, toks),
         ["jh", ..] => {
-            let be = ctx.backend.clone();
+            // no-std build: `jh f8` always takes the dispatching `Compressor` path
+            let be = if cfg!(feature = "nostd_build") { "ref".to_string() } else { ctx.backend.clone() };
             ops_jh::step(&mut ctx.jh, &be, toks)
         }
         ["groestl", ..] => ops_groestl::step(&mut ctx.groestl, toks),
